@@ -3,7 +3,7 @@ from tools.extract import Unit, Rw
 from tools.krun import Harness
 
 PROPERTY = "C07"
-PRELUDE = ["../common/base.rs", "prelude.rs", "indexer_specs.rs"]
+PRELUDE = ["../common/base.rs", "prelude.rs", "indexer_specs.rs", "../C01/tree_archiver.rs"]
 IX = "crates/core/src/index/indexer.rs"
 W = dict(wrap_open="impl<BE: DecryptWriteBackend> Indexer<BE> {", wrap_close="}")
 R_DISCARD = Rw(r"(?m)^(\s*)_ = ", r"\1let _ = ", regex=True, count=None, optional=True, why="`_ = e;` -> `let _ = e;`")
@@ -102,6 +102,34 @@ UNITS += [
          contract="""
     requires old(self).count + pack.blobs@.len() <= usize::MAX, old(self).file.packs@.len() + old(self).file.packs_to_delete@.len() < usize::MAX,
     ensures /*@add_remove_goes_to_the_marked_section*/ r is Ok ==> listed_or_saved(*old(self), *final(self), pack, true),
+"""),
+]
+
+# ---- the skip-upload decision of the tree archiver (same unit as C01.ta_backup_tree; here for its dedup clause)
+TA = "crates/core/src/archiver/tree_archiver.rs"
+TRF = "crates/core/src/blob/tree.rs"
+R_ERR7 = Rw("", "verr()", count=None, kind="err", why="RusticError construction (kind/message/context dropped)")
+R_MAPERR7 = Rw("", "", count=None, kind="maperr", why=".map_err(<error building closure>) -> .vmap_err()")
+UNITS += [
+    Unit(name="ParentResult", file="crates/core/src/archiver/parent.rs", kind="type", anchor="pub(crate) enum ParentResult<T> {", rewrites=[R_ATTRS]),
+    Unit(name="TreeType", file="crates/core/src/archiver/tree.rs", kind="type", anchor="pub(crate) enum TreeType<T, U> {",
+         rewrites=[R_ATTRS, Rw("PathBuf", "PathR", count=None, why="PathBuf -> opaque path stub")]),
+    Unit(name="ta_backup_tree", file=TA, anchor="fn backup_tree(&mut self, path: &Path, parent: &ParentResult<TreeId>) -> RusticResult<TreeId>", ret_name="r",
+         wrap_open="impl TreeArchiver {", wrap_close="}",
+         functions=["archiver::tree_archiver::TreeArchiver::backup_tree"],
+         rewrites=[R_MAPERR7, R_ERR7,
+                   Rw("path: &Path,", "path: &PathR,", sig=True, why="Path -> opaque path stub"),
+                   Rw("let dirsize_bytes = ByteSize(dirsize).display().iec().to_string();", "let dirsize_bytes = ();", why="human-readable size, used only in the removed log lines"),
+                   Rw("self.tree_packer.add(chunk.into(), id.into())?;", "self.tree_packer.vadd(chunk, id)?;", why="Packer::add (channel to the packer thread) -> effect log; conversions dropped"),
+         ],
+         contract="""
+    requires counters_have_room(old(self).summary, TREE_SER(old(self).tree.nodes@).len() as int),
+    ensures
+        // identical content is stored once: a tree blob the index already has is not handed to the packer again,
+        // whatever the parent comparison said
+        /*@known_tree_is_not_stored_again*/ old(self).index.trees().contains(tree_id_of(old(self).tree.nodes@)) ==> final(self).tree_packer.added@ == old(self).tree_packer.added@,
+        /*@unknown_changed_tree_is_stored*/ r matches Ok(id) ==> (*parent matches ParentResult::Matched(p) && p == id) || old(self).index.trees().contains(id)
+            || final(self).tree_packer.added@ == old(self).tree_packer.added@.push((TREE_SER(old(self).tree.nodes@), id)),
 """),
 ]
 
